@@ -2,6 +2,7 @@ package pool
 
 import (
 	"context"
+	"errors"
 	"fmt"
 	"net"
 
@@ -198,4 +199,68 @@ func VerifC19Connect() {
 		verifapi.Assert(h == src, "c19.connect-advertised-host-is-source-address")
 		verifapi.Assert(prt == "30303", "c19.connect-advertised-port-30303")
 	}
+}
+
+// verifFaultyStore fails SetNode on demand (a storage fault: disk full, badger conflict, ...).
+type verifFaultyStore struct {
+	store.Store
+	failSetNode bool
+}
+
+func (s *verifFaultyStore) SetNode(n store.Node) error {
+	if s.failSetNode {
+		return errors.New("verif: storage fault")
+	}
+	return s.Store.SetNode(n)
+}
+
+// VerifC19Reregister: a host registers under one address and later again
+// under another one (a reconnect from elsewhere), with a storage fault possible
+// at either registration: whenever the pool acknowledges a registration, the
+// address it stores and hands to clients is the one that registration
+// supplied; a registration it could not record is refused.
+func VerifC19Reregister() {
+	fs := &verifFaultyStore{Store: newVerifStore()}
+	p := New(fs, nil)
+	verifapi.SetNow(verifapi.Time("now"))
+	nodeID := verifapi.NodeID(1)
+	addrs := []string{"192.0.2.10", "2001:db8::7"}
+	advertised := "" // host of the last acknowledged registration
+	for i, a := range addrs {
+		svc := &VerifHost{Name: fmt.Sprint("conn", i), Addr: net.JoinHostPort(a, "5000")}
+		req := ConnectRequest{NodeInfo: ethnode.UserAgent{Kind: ethnode.Geth, IsFullNode: true}}
+		if verifapi.Bool(fmt.Sprint("override", i)) {
+			req.NodeURI = "enode://" + nodeID + "@" + net.JoinHostPort(a, "30305")
+		}
+		fs.failSetNode = verifapi.Bool(fmt.Sprint("storagefault", i))
+		nonce := VerifFreshNonce()
+		ctx := jsonrpc2.VerifCtxWithService(context.Background(), svc)
+		_, err := p.Connect(ctx, sigs.SignFor(nodeID, "vipnode_connect", nonce, req), nodeID, nonce, req)
+		if fs.failSetNode {
+			verifapi.Assert(err != nil, "c19.rereg.unrecordable-registration-refused")
+		} else {
+			verifapi.Assert(err == nil, "c19.rereg.registration-accepted")
+		}
+		if err == nil {
+			advertised = a
+		}
+	}
+	fs.failSetNode = false
+	verifapi.Reach("c19.rereg")
+	stored, gerr := fs.GetNode(store.NodeID(nodeID))
+	if advertised == "" {
+		verifapi.Assert(gerr != nil, "c19.rereg.nothing-stored-when-nothing-acknowledged")
+		return
+	}
+	if gerr != nil {
+		verifapi.Assert(false, "c19.rereg.acknowledged-registration-stored")
+		return
+	}
+	parsed, perr := ethnode.ParseNodeURI(stored.URI)
+	if perr != nil {
+		verifapi.Assert(false, "c19.rereg.advertised-uri-parses")
+		return
+	}
+	h, _, serr := net.SplitHostPort(parsed.Host)
+	verifapi.Assert(serr == nil && h == advertised, "c19.rereg.advertised-address-is-the-acknowledged-one")
 }
